@@ -730,8 +730,8 @@ class PurityScenario:
         ]
 
     def plan(self, tier):
-        q, f = {"quick": (3500, 3500), "thorough": (150000, 150000)}[tier]
-        return {"quiet": q, "faults": f, "timeout": 120.0, "budget": 80.0 if tier == "quick" else 3 * 3600.0, "slice": 20}
+        q, f = {"quick": (2500, 2500), "thorough": (150000, 150000)}[tier]
+        return {"quiet": q, "faults": f, "timeout": 120.0, "budget": 60.0 if tier == "quick" else 3 * 3600.0, "slice": 10}
 
     def generate(self, rng, idx, tier, faults):
         tr = gen_c09(rng, idx, tier, faults)
